@@ -91,8 +91,8 @@ Proof.
   destruct (FlagMaxRecvWE <? f_flag f') eqn:Efl; [discriminate|]. apply N.ltb_ge in Efl.
   destruct (body_len (f_body f') =? 0); [rewrite Hact in Hr; discriminate|].
   unfold recv_body in Hr. rewrite Hact, Hk in Hr.
-  destruct (f_body f') as [bs|ivo ct] eqn:Eb; cbn [decrypt] in Hr; [discriminate|].
-  assert (Hdw : forall div, match decrypt_with B k (hdr_of (f_flag f') (body_len (Ct ivo ct))) div ct with
+  destruct (f_body f') as [bs|ivo ct] eqn:Eb; cbn [decrypt] in Hr; cbv zeta in Hr; [discriminate|].
+  assert (Hdw : forall div, match decrypt_with B k (hdr_of (f_flag f') (body_len (Ct ivo ct))) div ct (body_len (Ct ivo ct)) with
                             | (s1, SOk d) => (note_recv s1 (hdr_of (f_flag f') (body_len (Ct ivo ct)) ++ d), SOk (d, f_flag f'))
                             | (s1, SErr e) => (s1, SErr e)
                             end = (B1, SOk (d', fl')) ->
